@@ -84,6 +84,12 @@ uint8_t g_bold;      /* the byte at g_bj before the call, if g_bj < old size */
    ((z)->alloc == (oldalloc) || (z)->alloc <= 2 * (hi)))
 #define BUF_GROW_POST(z, need, olddata, oldalloc) BUF_GROW_POST2(z, need, need, olddata, oldalloc)
 
+/* readers that copy the payload into an owned buffer */
+#define POST_BUFREAD(r, z, p0, n0, oldsize, oldalloc, olddata) \
+  (((r) != 1 || ((z)->size == LPS_LEN(p0, n0) && (z)->alloc == (LPS_LEN(p0, n0) > (oldalloc) ? LPS_LEN(p0, n0) : (oldalloc)) && \
+                (!(g_bk < LPS_LEN(p0, n0)) || (z)->data[g_bk] == (p0)[LPS_K(p0, n0) + g_bk]))) && \
+   ((r) != 0 || ((z)->size == (oldsize) && (z)->alloc == (oldalloc) && (z)->data == (olddata))))
+
 #ifndef VERIF_NATIVE
 
 #include "util/types.h"
@@ -381,12 +387,6 @@ __CPROVER_ensures(g_bcontent ==> (BUF_KEEP_POST(z, __CPROVER_old(z->size))))
 __CPROVER_ensures(g_bcontent ==> (LPS_PREFIX_IS(z->data + __CPROVER_old(z->size), x->size)))
 __CPROVER_ensures(g_bcontent ==> (g_bk < x->size ==> z->data[__CPROVER_old(z->size) + V32_SIZE(x->size) + g_bk] == x->data[g_bk]))
 ;
-
-/* readers that copy the payload into an owned buffer */
-#define POST_BUFREAD(r, z, p0, n0, oldsize, oldalloc, olddata) \
-  (((r) != 1 || ((z)->size == LPS_LEN(p0, n0) && (z)->alloc == (LPS_LEN(p0, n0) > (oldalloc) ? LPS_LEN(p0, n0) : (oldalloc)) && \
-                (!(g_bk < LPS_LEN(p0, n0)) || (z)->data[g_bk] == (p0)[LPS_K(p0, n0) + g_bk]))) && \
-   ((r) != 0 || ((z)->size == (oldsize) && (z)->alloc == (oldalloc) && (z)->data == (olddata))))
 
 int c_buffer_read(ldb_buffer_t *z, const uint8_t **xp, size_t *xn)
 __CPROVER_requires(__CPROVER_rw_ok(z, sizeof(*z)) && BUF_PRE(z) && __CPROVER_rw_ok(xp, sizeof(*xp)) && __CPROVER_rw_ok(xn, sizeof(*xn)))
